@@ -30,7 +30,8 @@ CONSTANTS MaxOps, ExemptOnlyTopLevel, ResetOnRedefinition,
           EmitOn
 
 \* "wraplower" calls f_lower (which reads the global g); "inv" is x => 1/x called with 0.0 (a = 1) or -0.0 (a = 2)
-Kinds == {"pure", "lower", "upper", "callee", "print", "error", "impure", "wraplower", "inv"}
+\* "catchlower" calls a function that reads g and FAILS when g = 0, and absorbs the error with catch()
+Kinds == {"pure", "lower", "upper", "callee", "print", "error", "impure", "wraplower", "inv", "catchlower"}
 Caps  == {"lower", "upper", "func"}
 Args  == {1, 2}
 
@@ -56,6 +57,7 @@ Truth(kind, a) ==
     [] kind = "error"  -> <<-1, FALSE>>
     [] kind = "impure" -> <<a + ticks + 1, FALSE>>
     [] kind = "wraplower" -> <<a + g, FALSE>>
+    [] kind = "catchlower" -> <<IF g = 0 THEN -1 ELSE a + g, FALSE>>
     [] kind = "inv"    -> <<IF a = 1 THEN 1000 ELSE -1000, FALSE>>   \* +Inf / -Inf
 
 \* does the implementation store the result of this call?
@@ -66,7 +68,7 @@ Stored(kind) ==
     [] kind = "callee" -> TRUE           \* function-valued outer variables are exempt (top level)
     [] kind = "error"  -> FALSE          \* errors are never stored
     [] kind = "impure" -> FALSE          \* DontCache extension
-    [] kind = "wraplower" -> ~MissPropagates
+    [] kind \in {"wraplower", "catchlower"} -> ~MissPropagates   \* also when the callee ended in an error
     [] kind = "inv"    -> TRUE
 
 \* 0.0 and -0.0 are equal as cache keys (Go map key equality)
